@@ -72,6 +72,15 @@ Print Assumptions C04_terminated_all_done_partial.
 
 (* The same WITHOUT side conditions for instances whose machine post-buffers are unordered (FLEX, the compiler's
    default): both side conditions are derived for every applied transition of every run (SMP/ProvBatch.v). *)
+Theorem C04_output_done_every_instance :
+  forall (sigma : oracle) (i : inst) (fuel : nat) (x0 : state) (joker0 : Z) (ta : bool) (r : result) (m : mw),
+    inst_nonneg_b i = true ->
+    clock_b x0 = true -> wfs_b i x0 = true -> fresh2_b i x0 = true -> nodep_b x0 = true ->
+    reach sigma i fuel x0 joker0 ta r m -> output_done_b i (r_x r) = true.
+Proof. intros sigma i fuel x0 joker0 ta r m Hnn C W Fr D H. destruct (run_reachable sigma i Hnn _ _ _ _ _ _ C W Fr D H) as [_ [_ A]]. exact A. Qed.
+Print Assumptions C04_output_done_every_instance.
+
+(* the same for the instance class of the earlier rounds (corollary) *)
 Theorem C04_output_done_flex :
   forall (sigma : oracle) (i : inst) (fuel : nat) (x0 : state) (joker0 : Z) (ta : bool) (r : result) (m : mw),
     inst_nonneg_b i = true -> flex_post_b i = true ->
@@ -80,13 +89,23 @@ Theorem C04_output_done_flex :
 Proof. intros sigma i fuel x0 joker0 ta r m Hnn Hf C W Fr D H. eapply flex_reachable; eauto. Qed.
 Print Assumptions C04_output_done_flex.
 
+Theorem C04_terminated_all_done_every_instance :
+  forall (sigma : oracle) (i : inst) (fuel : nat) (x0 : state) (joker0 : Z) (ta : bool) (r : result) (m : mw),
+    inst_nonneg_b i = true ->
+    clock_b x0 = true -> wfs_b i x0 = true -> fresh2_b i x0 = true -> nodep_b x0 = true ->
+    reach sigma i fuel x0 joker0 ta r m ->
+    all_in_output i (r_x r) = true -> forallb all_operations_done (s_jobs (r_x r)) = true.
+Proof. intros sigma i fuel x0 joker0 ta r m Hnn C W Fr D H. eapply run_terminated_all_done; eauto. Qed.
+Print Assumptions C04_terminated_all_done_every_instance.
+
+(* the same for the instance class of the earlier rounds (corollary) *)
 Theorem C04_terminated_all_done_flex :
   forall (sigma : oracle) (i : inst) (fuel : nat) (x0 : state) (joker0 : Z) (ta : bool) (r : result) (m : mw),
     inst_nonneg_b i = true -> flex_post_b i = true ->
     clock_b x0 = true -> wfs_b i x0 = true -> fresh2_b i x0 = true -> nodep_b x0 = true ->
     reach sigma i fuel x0 joker0 ta r m ->
     all_in_output i (r_x r) = true -> forallb all_operations_done (s_jobs (r_x r)) = true.
-Proof. intros sigma i fuel x0 joker0 ta r m Hnn Hf C W Fr D H. eapply flex_terminated_all_done; eauto. Qed.
+Proof. intros. eapply C04_terminated_all_done_every_instance; eauto. Qed.
 Print Assumptions C04_terminated_all_done_flex.
 
 (* non-vacuity: the compiled initial state of a real instance satisfies the hypotheses, and the terminal state
